@@ -1,4 +1,6 @@
 import PdtVerif.Lemmas.Beam
+import PdtVerif.Lemmas.BeamRun
+import PdtVerif.Lemmas.BeamComplete
 /-!
 # C04 — beam search returns distinct, correctly scored, best-first paths per element
 
@@ -8,9 +10,10 @@ spec: `Spec/Beam.lean`).
 Every theorem is for **all** vocabulary sizes, widths, eos settings, `finish_all_paths`,
 pad values, step limits, batches of initial states, language models (any state type, any
 function; contract `LMOK`) and **every** selection function that meets the `topk` contract
-`SelOK` (any maximal-`K` selection, best first, ties broken arbitrarily). They speak about the
-value `search` returns (`.ok out`); the two ways the code can raise inside the loop
-(`.error`) are outside the property and are exercised by the correspondence only.
+`SelOK` (any maximal-`K` selection, best first, ties broken arbitrarily). The first group speaks
+about the value `search` returns (`.ok out`); that `search` always returns a value under the
+repaired finishing rule is `C04_no_error` (second group, together with `C04_batch` and
+`C04_complete`).
 
 Common hypotheses:
 * `hsel : SelOK sel` — `topk` returns `K` distinct in-range indices, maximal, best first;
@@ -201,18 +204,153 @@ theorem C04_repaired_done_rule_example :
         out.map fun beam => (beam.filter (·.score.isSome)).map fun s => (s.col.take s.len, s.score))
       = some [[([1], some (-(1 : Rat) / 4)), ([2, 1], some (-(3 : Rat) / 2))]] := by decide +kernel
 
-/-
-TARGET (not proved; decided by the correspondence only):
+/-! ## The search never raises, batching is transparent, nothing is lost when nothing must be pruned
 
-* `C04_batch` — for `inits = [s₀, …, s_{N-1}]`, if the joint run returns `.ok out` then for every
-  `n` the single run `search sel cfg lm dflt [sₙ] maxIters` returns `.ok [beam]` with
-  `beam.map (fun s => (s.col.take s.len, s.score)) = out[n].map (fun s => (s.col.take s.len, s.score))`
-  (same `sel`, a function of the candidate list). The harness compares each element of every
-  batched run with the same element searched alone.
-* `C04_complete` — if `cfg.width ≥ (completeFrom spec cfg.V cfg.eos maxIters []).length` and
-  (`cfg.eos = none` or `cfg.finishAll`), the finite-score slots of the returned beam are exactly
-  `completeFrom spec cfg.V cfg.eos maxIters []` (each with its `chain` score). The harness
-  compares the implementation's finite slots with the Lean spec's enumeration.
--/
+From here on every batch element may follow its **own** distribution: the language model is
+given a family `specs i` / `Reps i` (`i : ι`) of specifications, each satisfying `LMOK`, and
+every initial state represents the empty history for some member of the family (the language
+model conditions on batched input through its state). Elements with different distributions
+finish at different steps.
+
+Additional hypotheses:
+* `hrule : cfg.waitNegInf = false` — the repaired finishing rule
+  (`fixes/C04-neginf-slots-block-finish.diff`, applied to the tree);
+* `hL : Waits cfg ∨ ∀ i, SpecLive cfg.V (specs i)` — either `eos` is set and
+  `finish_all_paths=True`, or every score row has a finite entry (what `log_softmax` returns).
+  Without it the modelled code *can* raise: `C04_dead_rows_counterexample`. -/
+
+section family
+variable {ι : Type} {specs : ι → List Int → List Score} {Reps : ι → List Int → σ → Prop}
+
+/-- **C04_no_error**: under the repaired finishing rule neither of the two failure modes of the
+modelled loop (`.error "lm index"`: the language model asked for an index beyond the history
+tensor; `.error "shape"`: `torch.where` of `S + 1` rows against `S`) is reachable — the history
+tensor grows at every step. All theorems conditional on `search … = .ok out` therefore apply
+to every run. -/
+theorem C04_no_error (hsel : SelOK sel) (hlm : ∀ i, LMOK cfg.V lm (specs i) (Reps i))
+    (hV : 0 < cfg.V) (hw : 0 < cfg.width) (dflt : σ) (hrule : cfg.waitNegInf = false)
+    (hL : Waits cfg ∨ ∀ i, SpecLive cfg.V (specs i)) {inits : List σ}
+    (hinit : ∀ s ∈ inits, ∃ i, Reps i [] s) (hne : inits ≠ []) (maxIters : Nat) :
+    ∃ out, search sel cfg lm dflt inits maxIters = .ok out :=
+  search_ok hsel hlm hV hw dflt hrule hL hinit hne maxIters
+
+/-- **C04_batch**: what a joint run returns for batch element `n` shows exactly (counted tokens
+and score of every slot, in order) what the search of element `n` alone returns — whatever the
+other elements do and however early or late they finish. `sel` is one function of the
+candidate list, as `topk` is. -/
+theorem C04_batch (hsel : SelOK sel) (hlm : ∀ i, LMOK cfg.V lm (specs i) (Reps i))
+    (hV : 0 < cfg.V) (hw : 0 < cfg.width) (dflt : σ) (hrule : cfg.waitNegInf = false)
+    (hL : Waits cfg ∨ ∀ i, SpecLive cfg.V (specs i)) {inits : List σ}
+    (hinit : ∀ s ∈ inits, ∃ i, Reps i [] s) (maxIters : Nat) {out : List (List Slot)}
+    (h : search sel cfg lm dflt inits maxIters = .ok out) (n : Nat) (s : σ)
+    (hn : inits[n]? = some s) :
+    ∃ beam beamN, search sel cfg lm dflt [s] maxIters = .ok [beam] ∧ out[n]? = some beamN ∧
+      beamN.map (fun x => (x.col.take x.len, x.score))
+        = beam.map (fun x => (x.col.take x.len, x.score)) :=
+  search_batch hsel hlm hV hw dflt hrule hL hinit maxIters h n s hn
+
+/-- **C04_score_per_element**: in a batch whose elements follow different distributions, the
+finite-score slots of element `n` carry the chained log-probability under *that element's*
+distribution (`C04_batch` + `C04_score` on the element alone). -/
+theorem C04_score_per_element (hsel : SelOK sel) (hlm : ∀ i, LMOK cfg.V lm (specs i) (Reps i))
+    (hV : 0 < cfg.V) (hw : 0 < cfg.width) (dflt : σ) (hrule : cfg.waitNegInf = false)
+    (hL : Waits cfg ∨ ∀ i, SpecLive cfg.V (specs i)) {inits : List σ}
+    (hinit : ∀ s ∈ inits, ∃ i, Reps i [] s) (maxIters : Nat) {out : List (List Slot)}
+    (h : search sel cfg lm dflt inits maxIters = .ok out) (n : Nat) (s : σ)
+    (hn : inits[n]? = some s) (i : ι) (hi : Reps i [] s) :
+    ∃ beamN, out[n]? = some beamN ∧
+      ∀ x ∈ beamN, x.score ≠ none → x.score = chain (specs i) (x.col.take x.len) := by
+  obtain ⟨beam, beamN, h1, h2, h3⟩ := search_batch hsel hlm hV hw dflt hrule hL hinit maxIters h n s hn
+  refine ⟨beamN, h2, ?_⟩
+  intro x hx hf
+  obtain ⟨x', hx', hp, hsc⟩ := beamView_mem h3 hx
+  have := C04_score (cfg := cfg) hsel (hlm i) hV hw dflt (inits := [s])
+    (by intro y hy; simp at hy; subst hy; exact hi) h1 beam (by simp) x' hx' (by rw [hsc]; exact hf)
+  rw [← hsc, this]
+  exact congrArg _ hp
+
+/-- **C04_complete**: if every set of complete sequences up to the step limit fits into the beam
+(`hwid`) and all paths are run to completion (`eos` unset, or `finish_all_paths=True`), the
+finite-score slots returned for element `n` are **exactly** the complete sequences of that
+element's distribution — every member of `completeFrom … maxIters []` is the counted path of a
+finite-score slot and vice versa — each with its chained score (and, by `C04_distinct`, once). -/
+theorem C04_complete (hsel : SelOK sel) (hlm : ∀ i, LMOK cfg.V lm (specs i) (Reps i))
+    (hV : 0 < cfg.V) (hw : 0 < cfg.width) (dflt : σ) (hrule : cfg.waitNegInf = false)
+    (hL : Waits cfg ∨ ∀ i, SpecLive cfg.V (specs i))
+    (hfa : cfg.eos = none ∨ cfg.finishAll = true) {inits : List σ}
+    (hinit : ∀ s ∈ inits, ∃ i, Reps i [] s) (maxIters : Nat) {out : List (List Slot)}
+    (h : search sel cfg lm dflt inits maxIters = .ok out) (n : Nat) (s : σ)
+    (hn : inits[n]? = some s) (i : ι) (hi : Reps i [] s)
+    (hwid : ∀ t', t' ≤ maxIters →
+      (completeFrom (specs i) cfg.V cfg.eos t' []).length ≤ cfg.width) :
+    ∃ beamN, out[n]? = some beamN ∧
+      (∀ q, q ∈ completeFrom (specs i) cfg.V cfg.eos maxIters [] ↔
+        ∃ x ∈ beamN, x.score ≠ none ∧ x.col.take x.len = q) ∧
+      (∀ x ∈ beamN, x.score ≠ none → x.score = chain (specs i) (x.col.take x.len)) := by
+  obtain ⟨beam, beamN, h1, h2, h3⟩ := search_batch hsel hlm hV hw dflt hrule hL hinit maxIters h n s hn
+  obtain ⟨beam', h1', hc⟩ := search_single_complete hsel (hlm i) hV hw dflt hrule
+    (hL.imp id fun hh => hh i) hfa hi maxIters hwid
+  rw [h1] at h1'
+  simp only [Except.ok.injEq, List.cons.injEq, and_true] at h1'
+  subst h1'
+  have hcN : CInv cfg (specs i) maxIters beamN := cinv_of_view (Eq.symm h3) hc
+  obtain ⟨_, h2', hscore⟩ := C04_score_per_element hsel hlm hV hw dflt hrule hL hinit maxIters h n s
+    hn i hi
+  rw [h2] at h2'
+  simp only [Option.some.injEq] at h2'
+  subst h2'
+  exact ⟨beamN, h2, fun q => ⟨fun hq => hcN.cov q hq, fun ⟨x, hx, hf, hp⟩ => hp ▸ hcN.snd x hx hf⟩,
+    hscore⟩
+
+/-- The width condition in its stated form: when every score row has a finite entry the sets
+of complete sequences never shrink, so it is enough that the final one fits. -/
+theorem C04_complete_of_live (hsel : SelOK sel) (hlm : ∀ i, LMOK cfg.V lm (specs i) (Reps i))
+    (hV : 0 < cfg.V) (hw : 0 < cfg.width) (dflt : σ) (hrule : cfg.waitNegInf = false)
+    (hL : ∀ i, SpecLive cfg.V (specs i))
+    (hfa : cfg.eos = none ∨ cfg.finishAll = true) {inits : List σ}
+    (hinit : ∀ s ∈ inits, ∃ i, Reps i [] s) (maxIters : Nat) {out : List (List Slot)}
+    (h : search sel cfg lm dflt inits maxIters = .ok out) (n : Nat) (s : σ)
+    (hn : inits[n]? = some s) (i : ι) (hi : Reps i [] s)
+    (hwid : (completeFrom (specs i) cfg.V cfg.eos maxIters []).length ≤ cfg.width) :
+    ∃ beamN, out[n]? = some beamN ∧
+      (∀ q, q ∈ completeFrom (specs i) cfg.V cfg.eos maxIters [] ↔
+        ∃ x ∈ beamN, x.score ≠ none ∧ x.col.take x.len = q) ∧
+      (∀ x ∈ beamN, x.score ≠ none → x.score = chain (specs i) (x.col.take x.len)) :=
+  C04_complete hsel hlm hV hw dflt hrule (Or.inr hL) hfa hinit maxIters h n s hn i hi
+    (frontier_le_of_live (hL i) hwid)
+
+end family
+
+/-! ### Non-vacuity and necessity of the extra hypotheses -/
+
+theorem exSpec_live : SpecLive exCfg.V exSpec := by
+  intro h
+  exact ⟨1, by decide, by simp [exSpec]⟩
+
+/-- The hypotheses of `C04_no_error` / `C04_batch` / `C04_complete` hold for the stateful example
+model with a two-element batch; the width condition holds for width 9 and two steps. -/
+def exCfgWide : Cfg := ⟨3, 9, some 1, true, -1, 0, false⟩
+
+example : ∃ out, search selIns exCfgWide exLM 0 [0, 0] 2 = .ok out :=
+  C04_no_error (cfg := exCfgWide) (ι := Unit) (specs := fun _ => exSpec)
+    (Reps := fun _ h n => n = h.length)
+    C04_selIns_ok (fun _ => exLM_ok) (by decide) (by decide) 0 rfl (Or.inr fun _ => exSpec_live)
+    (by intro s hs; simp at hs; subst hs; exact ⟨(), rfl⟩) (by simp) 2
+
+example : ∀ t', t' ≤ 2 → (completeFrom exSpec exCfgWide.V exCfgWide.eos t' []).length
+    ≤ exCfgWide.width := by decide +kernel
+
+/-- Without a finite entry in every score row (and without `finish_all_paths`) the modelled code
+can raise even under the repaired rule: all paths die at the second step, the beam holds only
+`-inf` slots of lagging lengths, the history tensor stops growing while `t` keeps counting. A
+row without a finite entry cannot come out of `log_softmax` (it would be NaN), so this is a
+limit of the model's domain, not a defect of the code. -/
+def deadLM : LM Unit :=
+  ⟨fun t _ _ => (if t = 0 then [some (-(1 : Rat)), some (-(2 : Rat))] else [none, none], ())⟩
+
+theorem C04_dead_rows_counterexample :
+    (match search selRev ⟨2, 4, none, false, -1, 0, false⟩ deadLM () [()] 6 with
+      | .error e => e == "lm index"
+      | .ok _ => false) = true := by decide +kernel
 
 end PdtVerif.Beam
